@@ -452,7 +452,8 @@ class IndentationFeatures(object):
             id000 = np.argmin(np.abs(xin - cp))
             id025 = int(id000 + .25 * (id100 - id000))
             idmin, idmax = min(id025, id100), max(id025, id100)
-            if idmin != idmax:
+            if idmax - idmin > 1:
+                # (we need at least one point in each half of the interval)
                 # find zeros
                 idcen = idmin + (idmax - idmin) // 2
                 smooth = ndimage.gaussian_filter1d(yin - fit, sigma=11)
